@@ -154,7 +154,7 @@ impl Check for VotesCheck {
         if tier == Tier::Quick {
             1000
         } else {
-            50000
+            15000
         }
     }
     fn components(&self) -> serde_json::Value {
